@@ -417,7 +417,9 @@ class NetTrace:
                 if t[1] == "state" and (out.startswith("ok:") or out.startswith("err:")):
                     c["res"] = out
                     if out.startswith("ok:"):
-                        c["ok_at"] = i
+                        c.setdefault("ok_at", i)           # the FIRST observation of the resolved call
+                elif t[1] == "state" and "ok_at" not in c:
+                    c["pend_at"] = i                       # last observation of the call still pending
                 if t[1] == "write" and out.startswith("ready:"):
                     c["w"] += int(out.split(":")[1])
                 if t[1] in ("write", "flush", "shutdown") and out.startswith("err"):
@@ -591,8 +593,12 @@ def oracle_limit_release(P):
                     hits.append({"sig": {"oracle": "net_tables", "what": "limit_exceeded"}, "text": f"socket {port} holds {len(keys)} connections, limit {tr.max}"})
                 # a stream whose call has JUST resolved Ok (no time has passed, no datagram was delivered since) is alive:
                 # its socket's table must have an entry for it
+                # ("just": first seen resolved after the last delivery/advance, AND no time passed between the last
+                # observation of the call still pending - or its creation - and that first sight: a stream that was
+                # handed over earlier may have died of its own timers since, and its entry is then rightly gone)
                 quiet_from = max([j for j, (op, _o) in enumerate(tr.steps[:i]) if op.startswith(("net adv", "net pump", "net stage"))] + [-1])
-                fresh = [n for n, c in tr.calls.items() if c["sock"] == port and quiet_from < c.get("ok_at", -1) < i]
+                fresh = [n for n, c in tr.calls.items() if c["sock"] == port and quiet_from < c.get("ok_at", -1) < i
+                         and not any(op.startswith("net adv") for op, _o in tr.steps[c.get("pend_at", c["first"]):c["ok_at"]])]
                 if keys is not None and len(fresh) > len(keys):
                     hits.append({"sig": {"oracle": "net_tables", "what": "held_stream_not_in_table"},
                                  "text": f"socket {port}: {', '.join(fresh)} has just been handed to the application, but the connection table has only {len(keys)} entries {keys}: the new connection was evicted from the table (datagrams for it are no longer delivered, its share of the limit is not counted)"})
